@@ -916,7 +916,7 @@ impl World {
         // then pairs across ISDs whose AS numbers also occur in another ISD of this topology
         let asn = |x: u64| x & 0xffff_ffff_ffff;
         let repeated = |x: u64| self.topo.ases.iter().any(|a| asn(a.ia) == asn(x) && isd(a.ia) != isd(x));
-        pairs.sort_by_key(|(s, d)| if seen_rows.insert(row_of(*s, *d)) { 0 } else if isd(*s) != isd(*d) && asn(*d) != 0 && (repeated(*s) || repeated(*d)) { 1 } else { 2 });
+        pairs.sort_by_cached_key(|(s, d)| if seen_rows.insert(row_of(*s, *d)) { 0 } else if isd(*s) != isd(*d) && asn(*d) != 0 && (repeated(*s) || repeated(*d)) { 1 } else { 2 });
         let mut out = vec![];
         for (s, d) in pairs {
             if out.len() >= max { break; }
